@@ -189,6 +189,9 @@ func (fv *FV) callByContract(st *State, fn *ssa.Function, spec *FuncSpec, c *ssa
 func (fv *FV) applyContract(st *State, spec *FuncSpec, fn *ssa.Function, c *ssa.CallCommon, args []Term, pos token.Pos, sig *types.Signature) []Term {
 	spec.Used = true
 	fv.calleesByContract[spec.Key] = true
+	if spec.Kind != "extern" {
+		fv.checkTypeInvs(st, pos)
+	}
 	var errs []string
 	vars := map[string]Term{}
 	if fn != nil && spec.Kind == "func" {
@@ -390,7 +393,6 @@ func (fv *FV) calleeFrameCheck(st *State, calleeOld *Env, spec *FuncSpec, pos to
 	}
 	var errs []string
 	env := fv.stateEnv(st, &errs)
-	alloc0 := fv.heapGet(map[string]Term{}, 0, "pv_alloc", arraySort(SInt, SBool))
 	for _, a := range spec.Assigns {
 		switch x := a.E.(type) {
 		case *ESel:
@@ -399,7 +401,7 @@ func (fv *FV) calleeFrameCheck(st *State, calleeOld *Env, spec *FuncSpec, pos to
 			if !ok {
 				continue
 			}
-			alts := []Term{tNot(tSelect(alloc0, obj, SBool))}
+			alts := []Term{tNot(fv.allocAtEntry(obj))}
 			for _, mine := range fv.spec.Assigns {
 				ms, ok := mine.E.(*ESel)
 				if !ok {
@@ -415,7 +417,7 @@ func (fv *FV) calleeFrameCheck(st *State, calleeOld *Env, spec *FuncSpec, pos to
 		case *ECall:
 			if x.Fn == "contents" && len(x.Args) == 1 {
 				m := calleeOld.Eval(x.Args[0])
-				alts := []Term{tNot(tSelect(alloc0, m, SBool))}
+				alts := []Term{tNot(fv.allocAtEntry(m))}
 				for _, mine := range fv.spec.Assigns {
 					if mc, ok := mine.E.(*ECall); ok && mc.Fn == "contents" {
 						alts = append(alts, tEq(m, env.old.Eval(mc.Args[0])))
